@@ -432,6 +432,8 @@ const prelude = `
 (assert (forall ((s Str)) (! (>= (slen s) 0) :pattern ((slen s)))))
 (assert (forall ((s Str) (i Int)) (! (=> (and (<= 0 i) (< i (slen s))) (and (<= 0 (sat s i)) (<= (sat s i) 255))) :pattern ((select (sbytes s) i)))))
 (assert (forall ((a Str) (b Str)) (! (= (slen (scat a b)) (+ (slen a) (slen b))) :pattern ((scat a b)))))
+; the empty string is the unit of concatenation (follows from extensionality; stated so that it is available without a seq term)
+(assert (forall ((a Str) (b Str)) (! (and (=> (= (slen a) 0) (= (scat a b) b)) (=> (= (slen b) 0) (= (scat a b) a))) :pattern ((scat a b)))))
 (assert (forall ((a Str) (b Str) (i Int)) (! (= (sat (scat a b) i) (ite (< i (slen a)) (sat a i) (sat b (- i (slen a))))) :pattern ((select (sbytes (scat a b)) i)))))
 (assert (forall ((s Str) (i Int) (j Int)) (! (=> (and (<= 0 i) (<= i j) (<= j (slen s))) (= (slen (ssub s i j)) (- j i))) :pattern ((ssub s i j)))))
 (assert (forall ((s Str) (i Int) (j Int) (k Int)) (! (= (sat (ssub s i j) k) (sat s (+ i k))) :pattern ((select (sbytes (ssub s i j)) k)))))
